@@ -24,5 +24,6 @@ def run(e, R, tier):
         L.r_cancel_safe,
         L.r_mgr_exit,
         B.r_exc_types,
+        B.r_mgr_total,
         SC.r_scn_manager,
     ])
